@@ -338,7 +338,7 @@ func TestVerif_C11_ImportGuards(t *testing.T) {
 		}
 		// the blobs
 		rsa, secp, ecdk := c11ForeignKeys()
-		blob := rapid.SampledFrom([]string{"valid", "swapped", "equal", "rsa-account", "secp-proof", "ecdsa-account", "truncated", "random", "empty", "nil-proof", "raw-seed", "equal-other-encoding", "equal-other-encoding-swapped", "legacy-encoding"}).Draw(rt, "blob")
+		blob := rapid.SampledFrom([]string{"valid", "valid", "valid", "valid", "swapped", "equal", "rsa-account", "secp-proof", "ecdsa-account", "truncated", "random", "empty", "nil-proof", "raw-seed", "equal-other-encoding", "equal-other-encoding-swapped", "legacy-encoding"}).Draw(rt, "blob")
 		ia, ib := a, b
 		valid := false
 		switch blob {
